@@ -49,7 +49,11 @@ class SimpleConstraints(NdContract):
         self.sf, self.labels, self.scores = Abstract("sf"), Abstract("labels"), Abstract("scores")
         self.flip, self.xm, self.ym, self.est = Abstract("flip"), Abstract("x_metric_"), Abstract("y_metric_"), Abstract("estimator_")
         st.env.update({"self": Obj("ThresholdOptimizer", {"grid_size": self.gs, "flip": self.flip, "x_metric_": self.xm, "y_metric_": self.ym,
-                                                          "estimator_": self.est, "_predict_method": Abstract("pm")}),
+                                                          "estimator_": self.est, "_predict_method": Abstract("pm"),
+                                                          # state of an earlier fit (possibly with another grid_size): must be rebuilt, not reused
+                                                          "_x_grid": Nd("x_grid_of_an_earlier_fit", (Int("earlier_grid_points"),), "ndarray", "ERASED",
+                                                                        cell=lambda i: Function("earlier_x_grid", IntSort(), RealSort())(i)),
+                                                          "_tradeoff_curve": Abstract("curves_of_an_earlier_fit")}),
                        "sensitive_features": self.sf, "labels": self.labels, "scores": self.scores})
         st.ghost.update({"curve_of": ConstArray(IntSort(), IntVal(-1)), "entry_of": ConstArray(IntSort(), IntVal(-1)), "entry_row": ConstArray(IntSort(), IntVal(-1))})
 
